@@ -30,18 +30,26 @@ from ..lib.common import Ctx, MachineryError, repo_python_path
 
 MANIFEST = {
     "engine": "Validate",
-    "technique": "Lean 4 proof over a spec-tree model of validate (check_values + check_required + per-class parsers + subcommand selection) "
-                 "+ regenerated lenient-bracket table + differential correspondence on generated real parsers + mutation oracle over all tree positions and channels",
-    "text": "Theorems in lean/Jap/Props/C06.lean prove for all parser spec trees of any depth and all configurations: an accepted configuration has "
-            "every visible key path defined at its position; a foreign key carrying at least one leaf inserted at any defined position makes validate "
-            "fail with an error whose position is that key; every required key of an accepted configuration is non-null (through groups, the selected "
-            "subcommand, the selected class, list items); nulling/removing a required key yields the error naming it. The full statements fail on the "
-            "faithful model for four narrow classes carried as open findings (leafless foreign mapping, non-selected subcommand section, dict_kwargs, "
-            "scalar at a group key). The model is tied to the code by comparing its action table with the real parser's and its verdicts with the real "
-            "parse methods on generated parsers, and by the regenerated table of lenient_check brackets.",
-    "level_note": "Trusted: Lean kernel; axioms propext/Quot.sound/Classical.choice only; the generator/harness; the YAML loader as an oracle; "
+    "technique": "Lean 4 proof over a spec-tree model of validate (check_values + check_required + per-class parsers of init_args / list items "
+                 "+ subcommand selection) + regenerated lenient-bracket table + differential correspondence on generated real parsers "
+                 "(action table, verdicts, argv option table) + mutation oracle over all tree positions and eight channels",
+    "text": "Theorems in lean/Jap/Props/C06.lean prove, for all parser spec trees of any depth, all loaders and all configurations: "
+            "(C06_no_unknown_partial) in an accepted configuration no key path that carries a leaf is undefined at its position (top level, groups, "
+            "selected subcommand section, init_args of the selected class, list items); (C06_names_key_partial) ONE foreign key with a leaf inserted "
+            "at ANY defined mapping position makes validate fail with the unknown-key error positioned at exactly that key; (C06_required, "
+            "C06_required_subcommand) every required key / required subcommand of every parser level of an accepted configuration is set; "
+            "(C06_required_nulled / C06_required_removed) nulling / removing ONE required key at any position yields the required-key error "
+            "positioned at that key; (C06_argv_leftover) a command-line option outside the parser's option table is the error; (C06_no_lenient) "
+            "the regenerated table of lenient_check brackets, the guards of validate/_parse_common/parse_known_args/parse_args are as audited. "
+            "The full statements are false on the faithful model for four narrow classes, each a counterexample theorem and an open finding "
+            "(leafless foreign mapping, non-selected subcommand section, dict_kwargs, scalar at a group key). The model is tied to the code on "
+            "every run by comparing its action table (flatten) with the real parser's, its validate/parseArgv verdicts and named keys with the "
+            "real parse methods on generated parsers built from classes written to a temp module, and by the regenerated bracket table.",
+    "level_note": "Trusted: Lean kernel; axioms propext/Quot.sound/Classical.choice only; the generator/harness; the YAML loader as a parameter; "
                   "argparse's option matching (abbreviations are avoided by the generator). Base classes of class-typed arguments are abstract "
-                  "(no implicit class_path). The order in which several simultaneous faults are reported is not modelled (single-fault mutations only).",
+                  "(no implicit class_path). Mutation theorems assume noClash (no subcommand named like an argument of its level). The order in "
+                  "which several simultaneous faults are reported is not modelled (single-fault mutations; accept/reject only otherwise). "
+                  "Inside nested per-class parsers a leafless foreign key in a list item is refused by the code (set_defaults) and accepted by the model.",
 }
 
 FOREIGN = "zz9"
@@ -1044,6 +1052,11 @@ def compare_model(mut, mres, res):
     """model verdict vs real (object channel) verdict; None = agree"""
     if mres.get("r") == "ok":
         if res[0] != "ok":
+            if mut is not None and mut["kind"] == "foreign" and leafless(mut["value"]) and res[0] == "err" and any(isinstance(x, int) for x in mut["path"]) \
+                    and mentions_suffix(res[1], parser_relative(mut["path"] + [mut["key"]])):
+                # inside a list item that is validated with its own previous value as `default`, set_defaults refuses the key
+                # ("No action for key ... to set its default") even when it holds no leaf: the code is stricter than the model there
+                return None
             return "model accepts, code rejects: %s" % (res[1:3],)
         return None
     if mres.get("r") != "err":
@@ -1061,6 +1074,8 @@ def compare_model(mut, mres, res):
             if not delimited(res[1], segs[-1]):
                 return "model names subcommand key %s, code says %r" % (mres["rel"], res[1][:300])
         elif not mentions(res[1], segs):
+            if mut is not None and mut["kind"] == "foreign" and mres["kind"] == "unknown" and mentions_suffix(res[1], parser_relative(mut["path"] + [mut["key"]])):
+                return None      # the foreign key itself is named, without the path to its first leaf (set_defaults of a list item)
             return "model names %s key %s, code says %r" % (mres["kind"], mres["rel"], res[1][:300])
     return None
 
@@ -1108,31 +1123,40 @@ def table_of_spec(fields, prefix="", dotted=""):
 
 
 # ---------------------------------------------------------------- the check
-def process_case(ctx: Ctx, case: Case, muts, channels_per_mut, tmpdir, stats):
-    rng = ctx.rng
-    # --- the parser the harness built is the parser the spec describes
-    rt, st = table_of_real(case.parser), table_of_spec(case.fields)
+def model_batch(ctx: Ctx, batch):
+    """one driver run for a batch of cases: per case [spec, table, validate x configurations]; returns per case (table, verdicts)"""
+    lines, spans = [], []
+    for case, muts, cfgs in batch:
+        start = len(lines)
+        lines.append({"op": "spec", "fields": case.wire, "load": []})
+        lines.append({"op": "table"})
+        for c in cfgs:
+            lines.append({"op": "validate", "cfg": wire_val(c)})
+        spans.append((start, len(lines)))
     try:
-        mt = ctx.driver("Validate", [{"op": "spec", "fields": case.wire, "load": []}, {"op": "table"}])[1]
-        st = sorted([d, sorted("--" + o for o in opts), kind, req] for d, opts, kind, req in mt)     # the MODEL's flatten
-    except MachineryError as ex:
-        if ctx.lean_ok:
-            raise
-    ctx.count()
-    if rt != st:
-        diff = [x for x in rt if x not in st][:3], [x for x in st if x not in rt][:3]
-        ctx.tie_break("action table of the real parser differs from the spec's table (dests / option strings / required set)",
-                      json.dumps({"real_only": diff[0], "spec_only": diff[1], "spec": case.ph(case.fields)}, default=repr)[:1800])
-        return
-    cfgs = [case.cfg] + [mutate(case.cfg, m) for m in muts]
-    all_muts = [None] + muts
-    try:
-        model = ctx.driver("Validate", model_lines(case, cfgs))[1:]
+        out = ctx.driver("Validate", lines)
     except MachineryError as ex:
         if ctx.lean_ok:
             raise
         ctx.tie_break("correspondence Validate not runnable (model does not build)", str(ex)[:500])
-        model = [None] * len(cfgs)
+        return [(None, [None] * len(cfgs)) for _, _, cfgs in batch]
+    return [(out[a + 1], out[a + 2:b]) for a, b in spans]
+
+
+def process_case(ctx: Ctx, case: Case, muts, cfgs, mt, model, channels_per_mut, tmpdir, stats):
+    """returns the argv renderings to be compared with the model's argv channel"""
+    rng = ctx.rng
+    # --- the parser the harness built is the parser the spec describes: the real action table vs the MODEL's `flatten`
+    rt, st = table_of_real(case.parser), table_of_spec(case.fields)
+    if mt is not None:
+        st = sorted([d, sorted("--" + o for o in opts), kind, req] for d, opts, kind, req in mt)
+    ctx.count()
+    if rt != st:
+        diff = [x for x in rt if x not in st][:3], [x for x in st if x not in rt][:3]
+        ctx.tie_break("action table of the real parser differs from the model's table (dests / option strings / required set)",
+                      json.dumps({"real_only": diff[0], "model_only": diff[1], "spec": case.ph(case.fields)}, default=repr)[:1800])
+        return []
+    all_muts = [None] + muts
     argv_cases = []
     for mut, cfg, mres in zip(all_muts, cfgs, model):
         fid = finding_of(mut)
@@ -1177,28 +1201,41 @@ def process_case(ctx: Ctx, case: Case, muts, channels_per_mut, tmpdir, stats):
             what = ("valid configuration: " if mut is None else "mutation %s at %s: " % (mut["kind"], ".".join(map(str, mut["path"])))) + dev
             ctx.violation("[%s] %s" % (ch, what), replay)
             stats["violations"] += 1
-    check_argv_model(ctx, case, argv_cases, stats)
+    return argv_cases
 
 
-def check_argv_model(ctx, case, argv_cases, stats):
-    """the model's argv channel (option table + validate) vs the real parse_args on the rendered command lines"""
-    if not argv_cases:
+def check_argv_model(ctx, pending, stats):
+    """the model's argv channel (option table + validate) vs the real parse_args on the rendered command lines;
+    `pending`: [(case, [(mut, cfg, result)])], one driver run for all"""
+    lines, owners = [], []
+    for case, argv_cases in pending:
+        if not argv_cases:
+            continue
+        lines.append({"op": "spec", "fields": case.wire, "load": []})
+        owners.append(None)
+        for mut, cfg, res in argv_cases:
+            lines.append({"op": "argv", "opts": argv_opts(res[2], case.fields), "cfg": wire_val(cfg)})
+            owners.append((case, mut, cfg, res))
+    if not lines:
         return
-    lines = [{"op": "spec", "fields": case.wire, "load": []}]
-    for mut, cfg, res in argv_cases:
-        lines.append({"op": "argv", "opts": argv_opts(res[2], case.fields), "cfg": wire_val(cfg)})
     try:
-        out = ctx.driver("Validate", lines)[1:]
+        out = ctx.driver("Validate", lines)
     except MachineryError:
         if ctx.lean_ok:
             raise
         return
-    for (mut, cfg, res), m in zip(argv_cases, out):
+    for own, m in zip(owners, out):
+        if own is None:
+            continue
+        case, mut, cfg, res = own
         ctx.count()
         d = None
         if m.get("r") == "ok" and res[0] != "ok":
             # `--k=null` for a non-Optional argument is a type error on the command line only; nulls are not rendered
             d = "model (argv) accepts, code rejects: %s" % (str(res[1])[:200],)
+            if mut is not None and mut["kind"] == "foreign" and leafless(mut["value"]) and res[0] == "err" and any(isinstance(x, int) for x in mut["path"]) \
+                    and mentions_suffix(res[1], parser_relative(mut["path"] + [mut["key"]])):
+                d = None      # set_defaults of a nested list item refuses the leafless key: the code is stricter than the model (see compare_model)
         elif m.get("r") == "err" and res[0] == "ok":
             d = "model (argv) rejects (%s %s), code accepts" % (m.get("kind"), m.get("rel", m.get("arg")))
         elif m.get("r") == "err" and m.get("kind") == "unrecognized" and res[0] == "err" and not (
@@ -1264,7 +1301,7 @@ def run(ctx: Ctx):
     for c in load_corpus(ctx):
         if "fields" in c:
             cases.append((Case(c["fields"], c["cfg"], "corpus"), c.get("muts")))
-    n_cases = ctx.budget(36, 400) * (2 if ctx.search_boost > 1 else 1)
+    n_cases = ctx.budget(60, 600) * (2 if ctx.search_boost > 1 else 1)
     for i in range(n_cases):
         maxd = 2 if i % 3 else 3
         try:
@@ -1272,20 +1309,30 @@ def run(ctx: Ctx):
         except Exception as ex:  # noqa: BLE001 - a generated parser that cannot be built is a harness problem
             raise MachineryError("generated parser could not be built: %r" % (ex,))
     known_done = False
-    for case, fixed_muts in cases:
-        full = ctx.thorough or case.origin == "corpus"
-        muts = [rename_mod(m, MODPH, case.modname) for m in fixed_muts] if fixed_muts is not None else mutations_of(ctx.rng, case.fields, case.cfg, case.modname, full)
-        if not ctx.thorough and fixed_muts is None and len(muts) > 40:
-            muts = ctx.rng.sample(muts, 40)
-        ctx.hist("mutations_per_case", min(len(muts) // 10 * 10, 100))
-        process_case(ctx, case, muts, ctx.budget(2, 4), tmpdir, stats)
-        if not known_done or ctx.thorough:
-            check_known_args(ctx, case)
-            known_done = True
-        if len(ctx.samples) < 3:
-            ctx.sample({"spec": case.ph(case.fields), "cfg": case.ph(case.cfg), "mutations": len(muts)})
-        if ctx.elapsed() > ctx.budget(70, 780):
-            ctx.extra["stopped_early_after_cases"] = cases.index((case, fixed_muts)) + 1
+    done = 0
+    chunk = ctx.budget(12, 40)
+    for c0 in range(0, len(cases), chunk):
+        batch = []
+        for case, fixed_muts in cases[c0:c0 + chunk]:
+            full = ctx.thorough or case.origin == "corpus"
+            muts = [rename_mod(m, MODPH, case.modname) for m in fixed_muts] if fixed_muts is not None else mutations_of(ctx.rng, case.fields, case.cfg, case.modname, full)
+            if not ctx.thorough and fixed_muts is None and len(muts) > 40:
+                muts = ctx.rng.sample(muts, 40)
+            ctx.hist("mutations_per_case", min(len(muts) // 10 * 10, 100))
+            batch.append((case, muts, [case.cfg] + [mutate(case.cfg, m) for m in muts]))
+        answers = model_batch(ctx, batch)            # one driver run per batch
+        pending = []
+        for (case, muts, cfgs), (mt, model) in zip(batch, answers):
+            pending.append((case, process_case(ctx, case, muts, cfgs, mt, model, ctx.budget(2, 4), tmpdir, stats)))
+            if not known_done or ctx.thorough:
+                check_known_args(ctx, case)
+                known_done = True
+            if len(ctx.samples) < 3:
+                ctx.sample({"spec": case.ph(case.fields), "cfg": case.ph(case.cfg), "mutations": len(muts)})
+            done += 1
+        check_argv_model(ctx, pending, stats)         # one more for the command lines
+        if ctx.elapsed() > ctx.budget(70, 660) and c0 + chunk < len(cases):
+            ctx.extra["stopped_early_after_cases"] = done
             break
 
     # --- replay of catalogued findings
